@@ -203,6 +203,68 @@ def r3(ctx):
                 distinct_keys=list(TRANSLATORS))
 
 
+def load_ignore_file(ctx, fn, tool):
+    """-> (list of (pattern line, syntax name or None) the loader produces, None) or (None, reason)"""
+    import interp
+    OK, ERR = (lambda x: interp.V("Result::Ok", [x])), (lambda x: interp.V("Result::Err", [x]))
+    bad_line = ERR(interp.Opaque("stream did not contain valid UTF-8"))
+    if tool == "hg":
+        lines = [OK("syntax: glob"), OK("# generated"), bad_line, OK(""), OK("*.tmp"), OK("   "), OK("syntax: regexp"), OK("^a")]
+    else:
+        lines = [OK("# generated"), OK(""), bad_line, OK("*.log"), OK("   "), OK("!keep.log")]
+
+    def text():
+        return "\n".join(l.args[0] if l.name == "Result::Ok" else "\ufffd" for l in lines) + "\n"
+
+    def call(node, recv, args, it, env):
+        callee = str(node.get("callee", ""))
+        m = node.get("m")
+        if callee.endswith("File::open") or callee.endswith("fs::File::open"):
+            return (OK({"__file": True}),)
+        if callee.endswith("BufReader<R>::new") or callee.endswith("BufReader::new") or callee.endswith("BufReader<R>::with_capacity"):
+            return ({"__reader": True},)
+        if m == "lines" and isinstance(recv, dict) and "__reader" in recv:
+            return (list(lines),)
+        if m == "lines" and isinstance(recv, str):
+            return (recv.split("\n")[:-1] if recv.endswith("\n") else recv.split("\n"),)
+        if callee.endswith("fs::read_to_string"):
+            # the whole file or nothing: one undecodable byte fails the read
+            return (ERR(interp.Opaque("stream did not contain valid UTF-8")),)
+        if m == "read_to_string" and isinstance(recv, dict) and ("__file" in recv or "__reader" in recv):
+            return (ERR(interp.Opaque("stream did not contain valid UTF-8")),)
+        if callee.endswith("fs::read"):
+            return (OK({"__bytes": True}),)
+        if m == "read_to_end" and isinstance(recv, dict) and ("__file" in recv or "__reader" in recv):
+            for a in args:
+                if isinstance(a, list):
+                    a.append({"__bytes": True})
+            return (OK(1),)
+        if callee.endswith("String::from_utf8_lossy") and args and (isinstance(args[0], dict) or (isinstance(args[0], list) and args[0] and isinstance(args[0][0], dict))):
+            return (text(),)
+        if callee.endswith("String::from_utf8") or callee.endswith("str::from_utf8"):
+            return (ERR(interp.Opaque("invalid utf-8")),)
+        if callee.endswith("convert_dockerignore_pattern") or callee.endswith("convert_hgignore_pattern"):
+            syn = [a for a in args if isinstance(a, interp.V) and a.name.startswith("Syntax::")]
+            return (OK({"__pat": args[0], "__syn": syn[0].name.split("::")[-1] if syn else None}),)
+        if m in ("to_string_lossy", "display"):
+            return ("<path>",)
+        return None
+
+    def effect(node, it, env):
+        if node.get("mac") in ("eprintln", "eprint") or "_eprint" in str(node.get("callee", "")):
+            return ()
+        return None
+    h = ctx.anchor_hir(fn)
+    ps = ctx.prog.fns[fn]["params"]
+    try:
+        got = interp.Interp(call=call, effect=effect, prog=ctx.prog, max_steps=40000).run(h, {p["id"]: interp.Opaque(p.get("name") or "?") for p in ps})
+    except interp.Undecided as e:
+        return None, str(e)
+    if not (isinstance(got, interp.V) and got.name == "Result::Ok" and isinstance(got.args[0], list)):
+        return [repr(got)], None
+    return [(x.get("__pat"), x.get("__syn")) if isinstance(x, dict) else repr(x) for x in got.args[0]], None
+
+
 def r4(ctx):
     """hg / docker filter verdicts: any match ignores; docker negation re-includes"""
     # both verdict functions are evaluated (finite interpreter) on every list of up to three filters, each described by
@@ -247,16 +309,22 @@ def r4(ctx):
     ctx.obligation(ok)
     if not ok:
         ctx.violation("verdict/docker-bang", ctx.where("ignore::docker::convert_dockerignore_pattern"), "a leading `!` must mark the pattern as a negation")
-    # comments and blank lines are skipped by both parsers
-    for fn in ("ignore::docker::parse_dockerignore", "ignore::hg::parse_hgignore"):
-        h = ctx.anchor_hir(fn)
-        sw = [c for c in walk_exprs(h) if c["k"] == "MCall" and c["m"] == "starts_with" and peel(c["args"][0]).get("v") == "#"]
-        ie = [c for c in walk_exprs(h) if c["k"] == "MCall" and c["m"] == "is_empty" and "trim" in render(c["recv"])]
-        flt = [c for c in walk_exprs(h) if c["k"] == "MCall" and c["m"] == "filter"]
-        ok = bool(sw) and bool(ie) and bool(flt) and all(any(y is x for y in walk_exprs(flt[0])) for x in (sw[0], ie[0]))
+    # the loaders, evaluated on a small ignore file (finite interpreter; the file system and the pattern translators are
+    # stand-ins): comment and blank lines are skipped, every other line becomes one pattern, in file order, and a line that
+    # cannot be decoded (bytes that are not UTF-8, e.g. a Latin-1 comment) costs that line only - not the rest of the file
+    for fn, tool in (("ignore::docker::parse_dockerignore", "docker"), ("ignore::hg::parse_hgignore", "hg")):
+        got, why = load_ignore_file(ctx, fn, tool)
+        want = [("*.tmp", "Glob"), ("^a", "Regexp")] if tool == "hg" else [("*.log", None), ("!keep.log", None)]
+        ok = got == want
         ctx.obligation(ok)
         if not ok:
-            ctx.violation("verdict/comments/%s" % short(fn, 1), ctx.where(fn), "comment and blank lines of the ignore file must be skipped")
+            if why:
+                ctx.violation("verdict/loader/%s/unreadable" % short(fn, 1), ctx.where(fn), "cannot evaluate %s on an ignore file: %s" % (short(fn, 1), why))
+            else:
+                ctx.violation("verdict/loader/%s" % short(fn, 1), ctx.where(fn),
+                              "from an ignore file with a comment, blank lines, one undecodable line and the patterns %s, %s yields the patterns %s: comment and blank "
+                              "lines must be skipped, an undecodable line must cost only itself, every other line is one pattern, in file order" %
+                              ([w[0] for w in want], short(fn, 1), got))
     # hg syntax directive: evaluated on the two documented words and on an unknown one
     sfn = "ignore::hg::Syntax::from"
     sh = ctx.anchor_hir(sfn)
